@@ -678,19 +678,19 @@ pub fn run(rng: &mut Rng, n: usize, thorough: bool) {
     while k < n {
         match rng.below(20) {
             0..=7 => {
-                oriented(rng);
+                case("airfoil.case", "c10.library_call_panics", || oriented(rng));
                 k += 1
             }
             8..=13 => {
-                bisect(rng);
+                case("airfoil.case", "c10.library_call_panics", || bisect(rng));
                 k += 2
             }
             14 | 15 => {
-                open_sections(rng);
+                case("airfoil.case", "c10.library_call_panics", || open_sections(rng));
                 k += 10
             }
             _ => {
-                sections(rng);
+                case("airfoil.case", "c10.library_call_panics", || sections(rng));
                 k += if thorough { 10 } else { 20 }
             }
         }
